@@ -48,6 +48,9 @@ pub enum Action {
     Drop { p: usize },
     Observe { p: usize },
     Arm { kind: String, k: usize, victim: usize, new: usize },
+    /// the user edits a driver's state between steps (state_mut): set a scalar and/or
+    /// store bytes; forks share pages, so this is one more writer
+    Poke { p: usize, scalar: Option<(String, String, usize)>, store: Option<(u64, String)> },
 }
 
 #[derive(Clone, Debug, Serialize, Deserialize, PartialEq, Eq)]
@@ -549,6 +552,11 @@ impl<'a> Exec<'a> {
         self.c.inc(&format!("edges.{}", shape));
         self.log.str(kind);
 
+        // outside what the reference semantics define (arithmetic shift by more than the
+        // width, reachable only through lifted machine code): C04 territory, not judged
+        if matches!(&sres, StepResult::Stuck(m) if m.starts_with("undefined:")) {
+            sres = StepResult::Ambiguous("reference semantics undefined here".into());
+        }
         let sigbase = format!("arch={} op={} edges={} fault={}", arch, kind, shape, fault);
         let outcome;
         let result = match r {
@@ -766,6 +774,38 @@ impl<'a> Exec<'a> {
                     return Some(Violation::new("panic", "drop".into(), panic_site(&pm)));
                 }
                 None
+            }
+            Action::Poke { p, scalar, store } => {
+                let mut party = self.pool.borrow_mut().parties.remove(p)?;
+                self.ticks += 1;
+                let mut v = None;
+                if let Some(d) = party.driver.as_mut() {
+                    self.c.inc("op.poke");
+                    self.log.str("poke");
+                    if let Some((n, h, b)) = scalar {
+                        if let Ok(x) = BigUint::from_str_radix(h, 16) {
+                            let val = Val::new(x, *b);
+                            d.state_mut().set_scalar(n.clone(), val.to_constant());
+                            party.shadow.st.scalars.insert(n.clone(), val);
+                            party.shadow.names.insert(n.clone());
+                        }
+                    }
+                    if let Some((a, h)) = store {
+                        for (i, byte) in hex_bytes(h).iter().enumerate() {
+                            let r = catch(|| d.state_mut().memory_mut().store(a + i as u64, il::const_(*byte as u64, 8)));
+                            match r {
+                                Ok(Ok(())) => {
+                                    party.shadow.st.mem.stored.insert(a + i as u64, *byte);
+                                }
+                                Ok(Err(e)) => v = Some(Violation::new("step-memory", "poke store-error".into(), e.to_string())),
+                                Err(pm) => v = Some(Violation::new("panic", "poke".into(), panic_site(&pm))),
+                            }
+                        }
+                        party.wrote_since_fork = true;
+                    }
+                }
+                self.pool.borrow_mut().parties.insert(*p, party);
+                v
             }
             Action::Observe { p } => {
                 let party = self.pool.borrow_mut().parties.remove(p)?;
@@ -1014,35 +1054,52 @@ pub fn generate(run_seed: u64, index: u64) -> Script {
             stores.push((a, to_hex(&rng.bytes(l as usize))));
         }
     }
-    // code: one or two routines in executable backing
+    // code: one or two routines in executable backing; half of the time laid out across a
+    // page boundary of the copy-on-write memory so that a lift starting in one page runs
+    // into the next
+    let align = arch.insn_align();
+    let code = if rng.chance(1, 2) {
+        CODE + 0x400 - align * rng.range(1, if arch.is_x86() { 40 } else { 10 })
+    } else {
+        CODE
+    };
     let mut code_targets = Vec::new();
-    let r1 = code_bytes(&mut rng, arch, CODE);
+    let r1 = code_bytes(&mut rng, arch, code);
     let r1_len = r1.len() as u64;
-    let r2_at = CODE + ((r1_len + 15) & !15);
+    let r2_at = code + ((r1_len + 15) & !15);
     let r2 = code_bytes(&mut rng, arch, r2_at);
     let mut image = r1.clone();
-    image.resize((r2_at - CODE) as usize, 0);
+    image.resize((r2_at - code) as usize, 0);
     image.extend(&r2);
-    code_targets.push(CODE);
+    code_targets.push(code);
     code_targets.push(r2_at);
     let code_perms = if !fault_free && rng.chance(1, 10) { 3 } else { 5 };
     backing.push(Region {
-        address: CODE,
+        address: code,
         data: to_hex(&image),
         perms: code_perms,
     });
-    if rng.chance(1, 3) {
-        // the code page has been written to (same bytes re-stored, or a patched first word)
-        let patch = if rng.chance(1, 2) {
-            image[..4.min(image.len())].to_vec()
+    // the code has been written to since it was mapped: the same bytes re-stored, or a
+    // different routine patched in at some instruction boundary (the lifter must see the
+    // current bytes, wherever the patch is relative to the branch target)
+    let mut patch_sites: Vec<(u64, Vec<u8>)> = Vec::new();
+    for _ in 0..rng.range(0, 2) {
+        let off = (rng.below(image.len() as u64) / align) * align;
+        let patch = if rng.chance(1, 3) {
+            image[off as usize..(off as usize + 4).min(image.len())].to_vec()
         } else {
-            code_bytes(&mut rng, arch, CODE)
+            code_bytes(&mut rng, arch, code + off)
         };
-        stores.push((CODE, to_hex(&patch)));
+        patch_sites.push((code + off, patch));
+    }
+    for (a, pbytes) in &patch_sites {
+        if rng.chance(1, 2) {
+            stores.push((*a, to_hex(pbytes)));
+        }
     }
     if !fault_free && rng.chance(1, 6) {
-        // permissions set on the paged layer for the whole code page
-        perms.push((CODE, 1024, *rng.pick(&[5u32, 7, 1, 4])));
+        // permissions set on the paged layer for the code pages
+        perms.push((CODE, 2048, *rng.pick(&[5u32, 7, 1, 4])));
     }
 
     // initial scalars
@@ -1087,6 +1144,16 @@ pub fn generate(run_seed: u64, index: u64) -> Script {
         scalars.push((n.to_string(), format!("{:x}", v.v), b));
     }
 
+    // self-modification by the program itself: 32-bit words of the patch routines
+    let mut patch_words: Vec<(u64, Val)> = Vec::new();
+    for (a, pbytes) in &patch_sites {
+        for (k, chunk) in pbytes.chunks(4).enumerate() {
+            if chunk.len() == 4 {
+                let v = if arch.big_endian() { Val::from_be_bytes(chunk) } else { Val::from_le_bytes(chunk) };
+                patch_words.push((*a + 4 * k as u64, v));
+            }
+        }
+    }
     // program
     let nfuncs = if rng.chance(1, 4) { 2 } else { 1 };
     let mut funcs = Vec::new();
@@ -1121,6 +1188,10 @@ pub fn generate(run_seed: u64, index: u64) -> Script {
                     }
                     17 => OpSpec::Nop,
                     18 if !fault_free && g.rng.chance(1, 3) => OpSpec::Intrinsic,
+                    18 if !patch_words.is_empty() => {
+                        let (a, w) = patch_words[g.rng.usize_below(patch_words.len())].clone();
+                        OpSpec::Store(ExprSpec::cu(a, 64), ExprSpec::c(&w))
+                    }
                     _ => {
                         // pointer bump keeps addresses moving across the page boundary
                         OpSpec::Assign("gp".into(), 64, ExprSpec::b("add", ExprSpec::s("gp", 64), ExprSpec::cu(g.rng.range(1, 9), 64)))
@@ -1240,7 +1311,28 @@ pub fn generate(run_seed: u64, index: u64) -> Script {
                     live.retain(|x| *x != victim);
                 }
             }
-            8 => actions.push(Action::Observe { p }),
+            8 if rng.chance(1, 2) => actions.push(Action::Observe { p }),
+            8 => {
+                let scalar = if rng.chance(2, 3) {
+                    let sc = *rng.pick(&SC[..8]);
+                    let v = if sc.1 < 8 {
+                        Val::from_u64(rng.below(2), sc.1)
+                    } else {
+                        Val::new(BigUint::from_bytes_be(&rng.corner_bytes(sc.1 / 8)), sc.1)
+                    };
+                    Some((sc.0.to_string(), format!("{:x}", v.v), sc.1))
+                } else {
+                    None
+                };
+                let store = if rng.chance(1, 2) {
+                    let a = data + rng.below(60);
+                    let n = rng.range(1, 4).min(data + 64 - a) as usize;
+                    Some((a, to_hex(&rng.bytes(n))))
+                } else {
+                    None
+                };
+                actions.push(Action::Poke { p, scalar, store });
+            }
             _ => {
                 if live.len() > 1 {
                     let victim = *rng.pick(&live);
@@ -1266,7 +1358,7 @@ pub fn generate(run_seed: u64, index: u64) -> Script {
             backing,
             stores,
             perms,
-            zones: vec![(data, 64), (CODE, 48)],
+            zones: vec![(data, 64), (code, 64)],
             fault_free,
         },
         actions,
